@@ -21,6 +21,7 @@ CONSTANTS N, Methods, Vers, ReqConns, ReqBodies, Pends, Reads, Keeps, RespBodies
           BadKind,            \* "head" | "chunk"
           Budgets,            \* initial write budgets ( 99 = unlimited )
           HalfClosed, KaOn,
+          Expects,            \* subset of BOOLEAN: a request with a body may carry "Expect: 100-continue"
           UpgAt,              \* 0 = none; N = the last request is an upgrade request and an upgrade service is configured
           DEV_CtxShared, DEV_PopIgnoresClose, DEV_UnreadCrossRequest, DEV_ChunkErrIsDisconnect, DEV_304Body, DEV_UpgradeDropsWbuf,
           KnownSigs           \* signatures of recorded (not repaired) findings: the masked form of RefAccepts (DESIGN.md 2.5)
@@ -35,7 +36,7 @@ VARIABLES reqs, progs, wire, sock, rbuf, peerEof,
 vars == <<reqs, progs, wire, sock, rbuf, peerEof, cpl, lastCtx, payload, drainable, msgs, st, cur, curCtx, hp, sendleft,
           sendkind, closeAfter, flags, error, wbuf, budget, out, result, woken, reg, pc, rs, hist, fedUnits, nresp, b0>>
 
-ReqSet  == [m : Methods, ver : Vers, conn : ReqConns, body : ReqBodies]
+ReqSet  == [m : Methods, ver : Vers, conn : ReqConns, body : ReqBodies, expect : Expects]
 ProgSet == [pend : Pends, read : Reads, keep : Keeps, status : Statuses, rbody : RespBodies, rconn : RespConns]
 \* body kinds: "none" | "cl" (2 body units, sized) | "ch" (2 body units + terminator, chunked)
 BodyUnits(b) == IF b = "none" THEN 0 ELSE 2
@@ -56,7 +57,7 @@ GtOf(rq) ==
   LET len(i) == Len(UnitsOf(i, rq[i], IF i = BadAt THEN BadKind ELSE ""))
       S[i \in 0..N] == IF i = 0 THEN 0 ELSE S[i-1] + len(i)
   IN [i \in 1..N |->
-        [m |-> rq[i].m, ver |-> rq[i].ver, conn |-> (IF i = UpgAt THEN "upgrade" ELSE rq[i].conn), expect |-> FALSE,
+        [m |-> rq[i].m, ver |-> rq[i].ver, conn |-> (IF i = UpgAt THEN "upgrade" ELSE rq[i].conn), expect |-> rq[i].expect,
          blen |-> (IF i = BadAt /\ BadKind = "chunk" THEN 1 ELSE BodyUnits(rq[i].body)), chunked |-> (rq[i].body = "ch"),
          start |-> S[i-1], end |-> S[i], headlen |-> 1, upgrade |-> (i = UpgAt)]]
 PfOf(pg) ==
@@ -92,6 +93,7 @@ Init ==
   /\ \A i \in 1..N : /\ (reqs[i].ver = 10 => reqs[i].body # "ch")
                      /\ (reqs[i].body = "none" => progs[i].read = "none" /\ progs[i].keep = "handler")
                      /\ (reqs[i].m = "HEAD" => reqs[i].body = "none")
+                     /\ (reqs[i].expect => reqs[i].body # "none" /\ reqs[i].ver = 11 /\ i # BadAt)
                      /\ (i = UpgAt => reqs[i].body = "none" /\ reqs[i].ver = 11 /\ reqs[i].m = "GET" /\ reqs[i].conn = "-" /\ i = N /\ BadAt # i)
   /\ wire = AllUnits(reqs) /\ sock = <<>> /\ rbuf = <<>> /\ peerEof = FALSE
   /\ cpl = 0 /\ lastCtx = [head |-> FALSE, ver |-> 11, conn |-> "close"]
@@ -210,11 +212,13 @@ Request ==
                        LET pl == Touch(u.i, pl0) IN
                        /\ cur' = u.i /\ curCtx' = ctx /\ hp' = progs[u.i].pend /\ st' = "svc"
                        /\ payload' = pl /\ msgs' = msgs
+                       \* ExpectCall resolves at once (default expect service): send_continue, then the service call
+                       /\ wbuf' = (IF r.expect THEN Append(wbuf, [k |-> "RI", i |-> u.i, last |-> FALSE]) ELSE wbuf)
                        /\ Emit([ev |-> "Call", i |-> u.i, m |-> r.m, ver |-> r.ver, tok |-> TRUE, hok |-> TRUE])
                        /\ pc' = "request"
                   ELSE /\ msgs' = Append(msgs, u.i) /\ payload' = pl0 /\ pc' = "request"
-                       /\ UNCHANGED <<cur, curCtx, hp, st, rs>>
-               /\ UNCHANGED <<flags, error, sendleft, sendkind, wbuf, closeAfter>>
+                       /\ UNCHANGED <<cur, curCtx, hp, st, rs, wbuf>>
+               /\ UNCHANGED <<flags, error, sendleft, sendkind, closeAfter>>
           [] u.k = "B" ->
                /\ cpl' = (IF cpl > 0 THEN cpl - 1 ELSE cpl)
                /\ payload' = (IF cpl = 1 THEN NoPayload      \* sized body complete: feed_eof, payload.take()
@@ -280,8 +284,9 @@ Response ==
                LET pl == Touch(x, payload) IN
                /\ msgs' = Tail(msgs) /\ st' = "svc" /\ cur' = x /\ curCtx' = CtxOf(x) /\ hp' = progs[x].pend /\ payload' = pl
                /\ Emit([ev |-> "Call", i |-> x, m |-> reqs[x].m, ver |-> reqs[x].ver, tok |-> TRUE, hok |-> TRUE])
+               /\ wbuf' = (IF reqs[x].expect THEN Append(wbuf, [k |-> "RI", i |-> x, last |-> FALSE]) ELSE wbuf)
                /\ pc' = "response"
-               /\ UNCHANGED <<flags, sendleft, sendkind, wbuf, lastCtx, closeAfter, reg>>
+               /\ UNCHANGED <<flags, sendleft, sendkind, lastCtx, closeAfter, reg>>
        [] st = "none" /\ msgs = <<>> ->
             /\ flags' = (IF ~HasPl /\ lastCtx.conn = "ka" THEN flags \cup {"KEEP_ALIVE"} ELSE flags \ {"KEEP_ALIVE"})
             /\ pc' = "flush"
@@ -313,6 +318,8 @@ RespEvent(u, k) ==
   IF u.k = "RH" THEN [ev |-> "Resp", k |-> k, interim |-> FALSE, status |-> u.status, ver |-> u.ver, len |-> u.len, cl |-> u.cl,
                       conn |-> u.conn, i |-> u.i, date |-> 1, ncl |-> (IF u.len = "cl" THEN 1 ELSE 0), nte |-> (IF u.len = "chunked" THEN 1 ELSE 0)]
   ELSE [ev |-> "none"]
+InterimEvent(k) == [ev |-> "Resp", k |-> k, interim |-> TRUE, status |-> 100, ver |-> 11, len |-> "none", cl |-> 0, conn |-> "-", i |-> 0,
+                    date |-> 0, ncl |-> 0, nte |-> 0, t |-> 0]
 Flush ==
   /\ pc = "flush"
   /\ IF wbuf = <<>> \/ "WRITE_DISC" \in flags THEN /\ pc' = "tail" /\ UNCHANGED <<wbuf, budget, out, rs, reg, nresp>>
@@ -322,6 +329,7 @@ Flush ==
           /\ budget' = (IF budget < 99 THEN budget - 1 ELSE budget)
           /\ nresp' = (IF u.k = "RH" THEN nresp + 1 ELSE nresp)
           /\ rs' = (LET s1 == IF u.k = "RH" THEN Step(rs, RespEvent(u, nresp + 1) @@ [t |-> 0])
+                                  ELSE IF u.k = "RI" THEN Step(rs, InterimEvent(nresp + 1))
                                   ELSE IF u.k = "RJ" THEN Step(rs, [ev |-> "Junk", n |-> 1, k |-> nresp, t |-> 0]) ELSE rs
                         s2 == IF u.last /\ s1.tag = "ok"
                               THEN Step(s1, [ev |-> "RespEnd", k |-> nresp + (IF u.k = "RH" THEN 1 ELSE 0),
@@ -368,6 +376,7 @@ Shutdown ==
                /\ wbuf' = Tail(wbuf) /\ out' = Append(out, u) /\ budget' = (IF budget < 99 THEN budget - 1 ELSE budget)
                /\ nresp' = (IF u.k = "RH" THEN nresp + 1 ELSE nresp)
                /\ rs' = (LET s1 == IF u.k = "RH" THEN Step(rs, RespEvent(u, nresp + 1) @@ [t |-> 0])
+                                   ELSE IF u.k = "RI" THEN Step(rs, InterimEvent(nresp + 1))
                                    ELSE IF u.k = "RJ" THEN Step(rs, [ev |-> "Junk", n |-> 1, k |-> nresp, t |-> 0]) ELSE rs
                          IN IF u.last /\ s1.tag = "ok"
                             THEN Step(s1, [ev |-> "RespEnd", k |-> nresp + (IF u.k = "RH" THEN 1 ELSE 0), n |-> (IF u.k = "RH" THEN 0 ELSE 2),
